@@ -184,6 +184,8 @@ func (cl *Loader) load(file string) (config map[string]interface{}, err error) {
 				return nil, fmt.Errorf("load import error: %v", err)
 			}
 
+			normalizeKeys(config)
+			normalizeKeys(raw)
 			err = mergo.Merge(&config, raw, mergo.WithOverride, mergo.WithAppendSlice, mergo.WithTypeCheck)
 			if err != nil {
 				return nil, err
@@ -228,6 +230,7 @@ func (cl *Loader) loadDir(dir string) (map[string]interface{}, error) {
 			return nil, fmt.Errorf("%s: %v", importFile, err)
 		}
 
+		normalizeKeys(cml)
 		err = mergo.Merge(&cm, cml, mergo.WithOverride, mergo.WithAppendSlice, mergo.WithTypeCheck)
 		if err != nil {
 			return nil, fmt.Errorf("%s: %v", importFile, err)
@@ -310,6 +313,39 @@ func (cl *Loader) unmarshalData(data []byte, ext string) (map[string]interface{}
 	}
 
 	return cm, nil
+}
+
+// normalizeKeys brings the sections of a decoded file to one representation before merging
+func normalizeKeys(m map[string]interface{}) {
+	for k, v := range m {
+		m[k] = yamlKeys(v)
+	}
+}
+
+// yamlKeys converts nested map[string]interface{} values produced by the JSON and TOML decoders
+// to the map[interface{}]interface{} form produced by yaml.v2, so that files of different formats
+// can be merged with each other
+func yamlKeys(v interface{}) interface{} {
+	switch x := v.(type) {
+	case map[string]interface{}:
+		m := make(map[interface{}]interface{}, len(x))
+		for k, e := range x {
+			m[k] = yamlKeys(e)
+		}
+		return m
+	case []map[string]interface{}:
+		l := make([]interface{}, len(x))
+		for i, e := range x {
+			l[i] = yamlKeys(e)
+		}
+		return l
+	case []interface{}:
+		for i, e := range x {
+			x[i] = yamlKeys(e)
+		}
+	}
+
+	return v
 }
 
 func (cl *Loader) decode(cm map[string]interface{}) (*configDefinition, error) {
